@@ -74,6 +74,8 @@ var sqlByteTemplates = []string{
 	"@" + bb, "@@" + bb + "a", "`" + bb + "`", "'" + bb + "'", "\"" + bb + "\"", "0x" + bb, "1e" + bb, "1." + bb, "$" + bb + "$", "$a$" + bb + "$a$", "q'" + bb + "a" + bb + "'", "nq'" + bb + "x", "n" + bb + "'a'",
 	"/*" + bb + "*/1", "--" + bb + "\n1", "#" + bb + "\n1", "[" + bb + "]", "\\" + bb, "a" + bb + "b", "1" + bb + "1", "a." + bb, "x'" + bb + "'", "u&" + bb, "1" + bb + ";" + bb + "drop table t",
 	"1 or 1" + bb + "=1", "1 " + bb + "= 1 or", "<" + bb + ">", ":" + bb, "!" + bb, "|" + bb, "&" + bb, "*" + bb, "-" + bb + "-", "/" + bb + "*", "{" + bb + "a}", "user" + bb + "()",
+	// a comment / string / variable that ends the input right after the byte
+	"1#" + bb, "1--" + bb, "1 -- " + bb, "1/*" + bb, "'a'#" + bb, "a--" + bb, "1;" + bb, "1'" + bb, "@" + bb + "#", "1 or '" + bb, "1\"" + bb, "1`" + bb, "a@" + bb, "1 or @" + bb,
 }
 
 var htmlByteTemplates = []string{
@@ -82,10 +84,12 @@ var htmlByteTemplates = []string{
 	"<!" + bb + "doctype>", "<!--" + bb + "-->", "<!--x-" + bb + "->", "<!--x--" + bb + ">", "<!-- ` --" + bb, "<![CDATA[" + bb + "]]>", "<%" + bb + "%>", "<?" + bb + "import>", "</" + bb + "a>", "</a" + bb + ">", "<a/" + bb + ">", "<a b='c'" + bb + "d=e>",
 	">" + bb + "script>", "> " + bb + "script x>", "x" + bb + "onclick y", "x'" + bb + "onclick'y", bb + "onclick", "onclick" + bb + "x", "href" + bb + "javascript:x", "x' href" + bb + "'javascript:x", "`" + bb + "onerror`", "x>" + bb + "!doctype html>",
 	"x" + bb + " onclick=y", "x'" + bb + " onclick=y", "x\"" + bb + "onclick=y", "x`" + bb + "onclick=y", "'>" + bb + "<script>", bb + "<script>", "<a b=c" + bb + "onclick=d>", "<a b" + bb + "=c onclick=d>",
+	// after an attribute name and white space; at the very start of a quoted context
+	"onclick " + bb + "x", "x' onclick " + bb, "<a onclick " + bb + "x>", "style\t" + bb, "x onclick\x00" + bb + "y", bb + "'onerror=x ", bb + "\"onerror=x ", bb + "`onerror=x ", bb + "' onerror=x ", bb + "x' onerror=y",
 }
 
 var sqlDomain = &domain{name: "sql", corpus: gen.CorpusSQL, seps: []string{"", " ", " ", " ", "\t", "\n", "\v", "\f", "\r", "\xa0", "\x00", "/**/", "/*x*/", "+", "("},
-	openers: gen.SQLOpeners, mutDict: gen.SQLExt, scale: sqlScale, sig: sqlSig, byteTemplates: sqlByteTemplates, fillers: []string{" ", "a", "/* filler */", "1,", "x "}}
+	openers: gen.SQLOpeners, mutDict: gen.SQLExt, scale: sqlScale, sig: sqlSig, byteTemplates: sqlByteTemplates, fillers: []string{" ", "a", "/* filler */", "1,", "x ", "(", ")", "\x00", "\n", "+", "''", "1+1-", "not ", "\xa0"}}
 
 var htmlDomain = &domain{name: "html", corpus: gen.CorpusHTML, seps: []string{"", " ", " ", "\t", "\n", "\f", "\r", "/", "\x00", "\v"},
-	openers: gen.HTMLOpeners, mutDict: gen.HTMLFull, scale: htmlScale, sig: htmlSig, byteTemplates: htmlByteTemplates, fillers: []string{" ", "x", "<b>t</b>", "lorem ipsum ", "a=b "}}
+	openers: gen.HTMLOpeners, mutDict: gen.HTMLFull, scale: htmlScale, sig: htmlSig, byteTemplates: htmlByteTemplates, fillers: []string{" ", "x", "<b>t</b>", "lorem ipsum ", "a=b ", "/", "\x00", "\n", "<!--c-->", "'", "word \n", "\t"}}
